@@ -109,6 +109,10 @@ type MuxH struct {
 	// searches that merge states leave it off so that scratch buffers inside the Muxer are a
 	// function of the last operation only and the state space stays finite.
 	Tag bool
+	// afs: without Tag the caller's adaptation field structs are REUSED from call to call (one per kind),
+	// as an application that keeps its MuxerData around does; whatever a call leaves in them is what
+	// the next call gets
+	afs map[string]*astits.PacketAdaptationField
 }
 
 func NewMuxH(period int) *MuxH {
@@ -344,6 +348,16 @@ func (h *MuxH) Do(op MOp, seed int64) *MCall {
 		}
 		c.Hdr = MakeHdr(op.Hdr, op.SID, idx)
 		c.AF = MakeAF(op.AF, idx)
+		if !h.Tag && c.AF != nil {
+			if h.afs == nil {
+				h.afs = map[string]*astits.PacketAdaptationField{}
+			}
+			if prev, ok := h.afs[op.AF]; ok {
+				c.AF = prev
+			} else {
+				h.afs[op.AF] = c.AF
+			}
+		}
 		in := append([]byte{}, c.Payload...)
 		c.N, c.Err = h.M.WriteData(&astits.MuxerData{PID: pid, AdaptationField: c.AF, PES: &astits.PESData{Data: in, Header: c.Hdr}})
 		if string(in) != string(c.Payload) {
